@@ -607,10 +607,24 @@ pub struct Program {
 
 /// Generate one closed program. `goal_kind`: 0 = int, 1 = bool, 2 = any small type.
 pub fn gen_program(ch: &mut Ch, cfg: ProgCfg, goal_kind: usize, fuel: usize) -> Option<Program> {
+    gen_program_at(ch, cfg, goal_kind, None, fuel)
+}
+
+/// A closed type (as a surface term) usable as a goal for several programs.
+pub fn gen_goal_type(ch: &mut Ch) -> Option<S> {
+    let mut g = ProgGen::new(ch, ProgCfg::default());
+    let t = g.gen_type(3)?;
+    g.eval_s(&t)?;
+    Some(t)
+}
+
+/// Like `gen_program`, at a given closed goal type when `goal_s` is given.
+pub fn gen_program_at(ch: &mut Ch, cfg: ProgCfg, goal_kind: usize, goal_s: Option<&S>, fuel: usize) -> Option<Program> {
     let mut g = ProgGen::new(ch, cfg);
-    let goal: Rc<V> = match goal_kind {
-        0 => Rc::new(V::Int),
-        1 => Rc::new(V::Bool),
+    let goal: Rc<V> = match (goal_s, goal_kind) {
+        (Some(t), _) => g.eval_s(t)?,
+        (None, 0) => Rc::new(V::Int),
+        (None, 1) => Rc::new(V::Bool),
         _ => {
             let t = g.gen_type(3)?;
             g.eval_s(&t)?
